@@ -466,6 +466,8 @@ def build_fixed(g):
     # degenerate zero-length items (C05; not round-trippable)
     A(vec(ZERO)); A(smallvec(ZERO)); A(bset(ZERO)); A(bmap(ZERO, ZERO)); A(tup([ZERO, ZERO])); A(vec(tup([ZERO, ZERO])))
     A(tup([u8, ZERO])); A(vec(tup([u8, ZERO]))); A(option(ZERO)); A(vec(bvs[0]))
+    # a zero-length fixed item before / between variable items of one builder-decoded container
+    A(tup([ZERO, vec(u8)])); A(tup([vec(u16), ZERO, vec(u16), u32])); A(tup([u8, ZERO, vec(u8), ZERO, vec(vec(u8))])); A(bmap(ZERO, vec(u8)))
     # tuples of every arity with fixed / variable fields in first / middle / last position
     v8 = vec(u8)
     for n in range(2, 13):
@@ -530,6 +532,8 @@ def build_fixed(g):
     g.container([(dc, set()), (dcv, set()), (dV, wd)])
     g.container([(u8, set()), (ZERO, set())])
     g.container([(ZERO, set())])
+    g.container([(ZERO, set()), (vec(u8), set())])
+    g.container([(vec(u16), set()), (ZERO, set()), (vec(u16), set()), (u32, set())])
     # transparent structs
     for inner, b, a, tu in [(u8, 0, 0, False), (vec(u8), 0, 0, True), (u64, 1, 0, False), (vec(u16), 0, 1, True),
                             (vl, 1, 1, False), (bls[9], 2, 1, True), (fl, 0, 2, False),
